@@ -20,7 +20,7 @@ distinct = number of different (extension set, document) pairs converted concurr
 """
 import ast, glob, os, sys, threading
 from gen import docs as D
-from gen import canon
+from gen import canon, footprint
 
 NEEDS_DRIVER = False
 FINDINGS = []      # no known finding for C12
@@ -203,99 +203,39 @@ def static_sites(pkg=None):
     return sites
 
 
-# ---- dynamic fingerprint --------------------------------------------------------------------------------------------
+# ---- dynamic fingerprint (gen/footprint.py) -----------------------------------------------------------------------------
 
-def _load_all():
-    import importlib, pkgutil, markdown
-    for m in pkgutil.walk_packages(markdown.__path__, 'markdown.'):
-        if m.name in ('markdown.test_tools', 'markdown.__main__'): continue
-        try: importlib.import_module(m.name)
-        except Exception: pass
+fingerprint = footprint.fingerprint
+_load_all = footprint.load_all
 
 
-def fingerprint():
-    """{(namespace path, kind, attr): canonical value} for all loaded markdown.* modules, their classes, functions'
-    defaults/closures, and module objects private to them (the patched html.parser copy)."""
-    import types
-    out = {}
-    mods = {n: m for n, m in list(sys.modules.items()) if (n == 'markdown' or n.startswith('markdown.')) and m is not None and n != 'markdown.test_tools'}
-    for n, m in list(mods.items()):
-        for k, v in list(vars(m).items()):
-            if isinstance(v, types.ModuleType) and getattr(v, '__name__', '') == 'html.parser' and v is not sys.modules.get('html.parser'):
-                mods['%s.%s(private html.parser)' % (n, k)] = v
-    for n in sorted(mods):
-        m = mods[n]
-        out.update(canon.namespace_snapshot(vars(m), n))
-        for k, v in list(vars(m).items()):
-            if isinstance(v, type) and (getattr(v, '__module__', None) == getattr(m, '__name__', None)):
-                out.update(canon.namespace_snapshot(vars(v), '%s.%s' % (n, k)))
-                for a, f in list(vars(v).items()):
-                    f = getattr(f, '__func__', f)
-                    if isinstance(f, types.FunctionType): _func_state(out, '%s.%s.%s' % (n, k, a), f)
-            elif isinstance(v, types.FunctionType) and getattr(v, '__module__', None) == getattr(m, '__name__', None):
-                _func_state(out, '%s.%s' % (n, k), v)
-    return out
-
-
-def _func_state(out, path, f):
-    """mutable state a function object can carry: default values, attributes, closure cells"""
-    w = canon._Walk()
-    extra = {'__defaults__': f.__defaults__, '__kwdefaults__': f.__kwdefaults__, '__dict__': {a: b for a, b in vars(f).items() if a != '__wrapped__'},
-             '__closure__': [c.cell_contents for c in (f.__closure__ or ()) if _has_contents(c)]}
-    for a, b in extra.items():
-        if b: out[(path, 'func', a)] = w.canon(b, a)
-
-
-def _has_contents(cell):
-    try: cell.cell_contents; return True
-    except ValueError: return False
-
-
-# canonical forms that must not be walked into (stdlib objects with their own internal caches): done by patching canon
-_orig_canon = canon._Walk.canon
-
-
-def _canon_patched(self, v, path, depth=0):
-    import logging
-    if isinstance(v, logging.Logger): return '<Logger %s>' % v.name    # logging is trusted (DESIGN C12 Limits)
-    return _orig_canon(self, v, path, depth)
-
-
-canon._Walk.canon = _canon_patched
-
-
-def dynamic_writes(batch=120, seed=7):
-    """locations of markdown.* module/class state that change while instances with every extension are constructed and
-    used: {(namespace path, attr): (before, after)}"""
-    import random, markdown
-    from gen import common as C
-    _load_all()
-    rng = random.Random(seed)
-    before = fingerprint()
-    cfgs = [{'extensions': list(C.EXTENSIONS)}, {'extensions': ['markdown.extensions.' + e for e in C.EXTENSIONS]}] + [D.config(rng) for _ in range(6)]
-    for c in cfgs:
-        try: md = D.make(c)
-        except Exception: continue
-        for _ in range(batch // len(cfgs)):
-            try: md.reset().convert(D.document(rng))
-            except Exception: pass
-    after = fingerprint()
+def dynamic_writes(batch=120, pristine=True):
+    """{(namespace path, attribute): (before, after, phase)} : locations of markdown.* module/class state (module globals,
+    every class-level attribute incl. lists/dicts/sets, function defaults and closures) that change while instances are
+    CONSTRUCTED with each extension (nothing converted) and then while documents are converted - observed in this
+    process and, with `pristine`, in a fresh subprocess (which also shows writes that happen only the first time)."""
     res = {}
-    for k in list(before) + [k for k in after if k not in before]:
-        a, b = before.get(k, '<absent>'), after.get(k, '<absent>')
-        if a != b: res[(k[0], k[2])] = (a[:160], b[:160])
+    runs = []
+    if pristine:
+        try: runs.append(('fresh process', footprint.pristine(max(20, batch // 2))))
+        except Exception as e: res[('<footprint child>', 'error')] = ('', repr(e)[:200], 'not run')   # reported in dist, not as a write
+    runs.append(('this process', footprint.phases(batch)))
+    for where, rows in runs:
+        for phase, ns, attr, a, b in rows:
+            res.setdefault((ns, attr), (a, b, '%s, %s' % (phase, where)))
     return res
 
 
-def census(batch=120):
+def census(batch=120, pristine=True):
     """{'static': [...sites...], 'dynamic': {...}, 'new_static': [...], 'new_dynamic': [...]}"""
     st = static_sites()
-    dy = dynamic_writes(batch)
+    dy = dynamic_writes(batch, pristine)
     new_static = [s for s in st if (s[0], s[1], s[2]) not in STATIC_ALLOW]
     new_dyn = []
-    for (ns, attr), (a, b) in sorted(dy.items()):
+    for (ns, attr), (a, b, phase) in sorted(dy.items()):
+        if ns == '<footprint child>': continue
         if (ns, attr) in DYN_ALLOW or (ns, '*') in DYN_ALLOW or _is_lazy_import(a, b): continue
-        new_dyn.append((ns, attr, a, b))
+        new_dyn.append((ns, attr, a, b, phase))
     return {'static': st, 'dynamic': {'%s :: %s' % k: v for k, v in dy.items()}, 'new_static': new_static, 'new_dynamic': new_dyn}
 
 
@@ -386,8 +326,8 @@ def search(driver, rng, n):
         for s in c['new_static']:
             viol.append({'input': {'site': list(s)}, 'config': {}, 'observed': 'shared state written at run time (static scan): %s in %s:%s line %d' % (s[2], s[0], s[1], s[3]),
                          'required': 'no run-time write to module- or class-level state outside the allow-list', 'finding': None})
-        for ns, attr, x, y in c['new_dynamic']:
-            viol.append({'input': {'site': [ns, attr]}, 'config': {}, 'observed': 'shared state written at run time: %s :: %s  %s -> %s' % (ns, attr, x, y),
+        for ns, attr, x, y, phase in c['new_dynamic']:
+            viol.append({'input': {'site': [ns, attr]}, 'config': {}, 'observed': 'shared state written at run time (%s): %s :: %s  %s -> %s' % (phase, ns, attr, x, y),
                          'required': 'module globals and class dictionaries of markdown.* unchanged by constructing/using instances (allow-list: memo cells)', 'finding': None})
         cases += 1
     except Exception as e:   # the census must not take the search down; say so
